@@ -6,7 +6,8 @@
 From Coq Require Import List String ZArith Bool.
 From Cog Require Import Model.IR Model.Json Model.GoSemBase Model.GoSemDecode Model.GoSemSpec
   Model.JsonSchemaOut Model.JsonSchemaOutSpec Proofs.JsonSchemaOutProofs Proofs.JsonSchemaOutEncode
-  Proofs.JsonSchemaOutWitness.
+  Proofs.JsonSchemaOutWitness
+  Model.GoSemEquals Model.GoSemValidate Model.GoSemSpec08 Model.GoSem Model.JsonSchemaOutValidated Proofs.JsonSchemaOutValidated.
 Import ListNotations.
 Local Open Scope string_scope.
 
@@ -153,3 +154,51 @@ Proof.
   eexists; eexists. split; [left; reflexivity|]. split; [vm_compute; reflexivity|].
   repeat split; vm_compute; reflexivity.
 Qed.
+
+(* ---------------- tied to the generated Validate(): what Go's own Validate() accepts, the emitted schema accepts
+   (Proofs/JsonSchemaOutValidated.v).  `structural` lists exactly what the emitted schema asks of an encoding that
+   Validate() never looks at: an `any` holds an object, no nil is encoded outside omitempty fields, enum / constant /
+   date-time leaves hold their values - the first two are the open findings C12-any-emitted-as-object,
+   C12-nullable-not-expressed, C12-nil-required-collection.  Numeric bounds and string lengths are NOT assumed: they
+   follow from Validate() returning no error. ---------------- *)
+Theorem validated_values_validate : forall ctx defs p n v,
+    faithful ctx defs ->
+    ctx_supported ctx = true -> struct_object ctx p n = true -> wt ctx (TRef attrs0 p n) v = true ->
+    ctx_alias_free ctx = true -> GoSemSpec08F.ctx_named ctx = true -> GoSemSpec08F.ctx_cdirect ctx = true ->
+    validate_object ctx p n v = [] ->
+    structural ctx (TRef attrs0 p n) v = true ->
+    jv defs (JSRef p n) (encode_object ctx p n v).
+Proof. exact validated_values_validate_obj. Qed.
+Print Assumptions validated_values_validate.
+Theorem validated_values_validate_any_type : forall ctx defs, faithful ctx defs ->
+    forall v t path, wt ctx t v = true -> violations ctx path t v = [] -> structural ctx t v = true ->
+                     jv defs (emit_type t) (encode ctx t v).
+Proof. exact validated_values_validate_core. Qed.
+Print Assumptions validated_values_validate_any_type.
+Theorem validated_values_accepted_by_the_validator : forall ctx defs p n v fuel b,
+    faithful ctx defs ->
+    ctx_supported ctx = true -> struct_object ctx p n = true -> wt ctx (TRef attrs0 p n) v = true ->
+    ctx_alias_free ctx = true -> GoSemSpec08F.ctx_named ctx = true -> GoSemSpec08F.ctx_cdirect ctx = true ->
+    validate_object ctx p n v = [] -> structural ctx (TRef attrs0 p n) v = true ->
+    js_valid defs fuel (JSRef p n) (encode_object ctx p n v) = Some b -> b = true.
+Proof. exact validated_values_js_valid. Qed.
+Print Assumptions validated_values_accepted_by_the_validator.
+(* the OpenAPI document carries the same definitions table under components.schemas: the theorems cover both *)
+Theorem openapi_has_the_same_definitions : forall s d,
+    find_member "components" (match render_openapi s d with JObj ms => ms | _ => [] end) =
+    Some (JObj [("schemas", render_defs openapi_prefix (jd_defs d))]) /\
+    find_member "definitions" (match render_jsonschema d with JObj ms => ms | _ => [] end) =
+    Some (render_defs jsonschema_prefix (jd_defs d)).
+Proof. exact openapi_same_definitions. Qed.
+Print Assumptions openapi_has_the_same_definitions.
+Theorem validated_values_hypotheses_satisfiable :
+  ctx_supported v_ex_ctx = true /\ struct_object v_ex_ctx "p" "Root" = true /\
+  ctx_alias_free v_ex_ctx = true /\ GoSemSpec08F.ctx_named v_ex_ctx = true /\ GoSemSpec08F.ctx_cdirect v_ex_ctx = true /\
+  wt v_ex_ctx (TRef attrs0 "p" "Root") v_ex_val = true /\
+  validate_object v_ex_ctx "p" "Root" v_ex_val = [] /\ structural v_ex_ctx (TRef attrs0 "p" "Root") v_ex_val = true /\
+  js_valid (w_defs v_ex_ctx) 20 (JSRef "p" "Root") (encode_object v_ex_ctx "p" "Root" v_ex_val) = Some true /\
+  structural v_ex_ctx (TRef attrs0 "p" "Root") v_bad_val = true /\
+  validate_object v_ex_ctx "p" "Root" v_bad_val = ["id"; "in.n"] /\
+  js_valid (w_defs v_ex_ctx) 20 (JSRef "p" "Root") (encode_object v_ex_ctx "p" "Root" v_bad_val) = Some false.
+Proof. exact validated_nonvacuous. Qed.
+Print Assumptions validated_values_hypotheses_satisfiable.
